@@ -348,6 +348,9 @@ func (m *Machine) selectOp(cases []selCase, blocking bool, what string) (int, Va
 		k := ready[0]
 		if len(ready) > 1 {
 			k = ready[m.decideFree("select", len(ready))]
+			if k != ready[0] {
+				m.selChoices++ // the outcome depends on the runtime's random choice: stress replay
+			}
 		}
 		v, ok := m.execCase(cases[k])
 		return k, v, ok
